@@ -155,6 +155,20 @@ def gen_cases(rng, tier):
         out.append(case("collide-%s-%s-pair-trailing" % (name, kind), "deser_seq", [sb + tr, sa + tr, sb]))
         out.append(case("collide-%s-%s-in-block" % (name, kind), "block_ids",
                         rng.randbytes(80) + txgen.ref_cs(3) + sa + fill[0] + sb))
+    # ONE-FIELD-APART PAIRS in one process: t, then a transaction that differs from t in exactly one field (an input's
+    # sequence / vout / txid / scriptSig / witness, an output's value / script, version, locktime, order), then t again -
+    # alone and inside one block.  A memo keyed by a strict subset of the fields hands out the other one's bytes or ids.
+    for sw in (True, False):
+        for _ in range(6 if T else 2):
+            t = txgen.gen_tx(rng, n_in=rng.choice([1, 2, 3]), n_out=rng.choice([1, 2]), segwit=sw)
+            st = txgen.ref_ser(t)
+            vs = txgen.one_field_variants(rng, t)
+            for name, t2 in vs:
+                s2 = txgen.ref_ser(t2)
+                out.append(case("one-field-apart-%s-%s" % (name, "segwit" if sw else "legacy"), "deser_seq", [st, s2, st]))
+            blk = [st] + [txgen.ref_ser(t2) for _, t2 in vs] + [st]
+            out.append(case("one-field-apart-in-block-%s" % ("segwit" if sw else "legacy"), "block_ids",
+                            rng.randbytes(80) + txgen.ref_cs(len(blk)) + b"".join(blk)))
     # a block whose transaction count needs a 3-byte CompactSize (253+): offsets must follow the count's real width
     many = [txgen.ref_ser(txgen.gen_tx(rng, n_in=1, n_out=1, segwit=(i % 3 == 0))) for i in range(253 if not T else 300)]
     out.append(case("block-deser-ids-253", "block_ids", rng.randbytes(80) + txgen.ref_cs(len(many)) + b"".join(many), timeout=120))
